@@ -9,8 +9,8 @@ for line in open(out):
     if not m:
         continue
     prop, n, viol, nofail, dclean, dchanged, tests, first = m.groups()
-    src = f"/tmp/w5-{prop}/out/m{n}"
-    dst = f"/verif/seeded/{prop}-r5m{n}"
+    src = os.environ.get("SEEDROOT", "/tmp/w5") + f"-{prop}/out/m{n}"
+    dst = f"/verif/seeded/{prop}-" + os.environ.get("SEEDTAG", "r5") + f"m{n}"
     os.makedirs(dst, exist_ok=True)
     shutil.copy(f"{src}/patch.diff", f"{dst}/patch.diff")
     shutil.copy(f"{src}/demo.py", f"{dst}/demo.py")
@@ -22,7 +22,7 @@ for line in open(out):
             status = "missed at first; caught after the strengthening recorded in DESIGN.md 12.6/12.7"
     else:
         status = "missed"
-    meta = {"property": prop, "round": "r5",
+    meta = {"property": prop, "round": os.environ.get("SEEDTAG", "r5"),
             "written_by": "independent sub-agent given only the property text, a scratch worktree and a list of what earlier rounds had produced",
             "what_it_needs_to_manifest": note,
             "confirmed": [f"tests: {tests.strip()} (with the change)",
